@@ -2,7 +2,7 @@
     and correspondence of Geom/Scale.v, Geom/Rotate.v with it ([corr_ok]).
     Imports only models and definitions (never a proof file). *)
 From Coq Require Import List ZArith Bool PrimFloat.
-From CGV Require Import Base.PyBase Geom.Num Gen.GeomGen Geom.IndexMap Geom.Scale Geom.Rotate Geom.CisTrans.
+From CGV Require Import Base.PyBase Geom.Num Gen.GeomGen Geom.IndexMap Geom.Scale Geom.Rotate Geom.CisTrans Geom.Tail.
 Import ListNotations.
 Open Scope Z_scope.
 
@@ -39,6 +39,10 @@ Inductive case :=
           (db : float)                                  (* default_bond *)
           (exc : nat)
           (pre : list (Z * fvec2))                      (* positions returned by check_and_fix_cis_trans (dict order) *)
+          (al : option (float * float))                 (* align_with given: (np.cos angle, np.sin angle) of the recorded
+                                                           linalg_functions.rotate call (transcript); None otherwise *)
+          (mid : list (Z * fvec2))                      (* rows returned by rotate_to_axis on the keys of the dict, in dict
+                                                           order (= pre when align_with is None) *)
           (lens : list float)                           (* np.linalg.norm results of the rescale loop (transcript) *)
           (post : list (Z * fvec2))                     (* what vespr_layout returned (dict order) *)
 | CRot (edges : list (Z * Z)) (anchor target : Z)
@@ -62,12 +66,36 @@ Fixpoint calls_eqb (a : list call) (b : list (Z * Z * Z)) : bool :=
   | _, _ => false
   end.
 
+(** the alignment: contract of the cos/sin transcript (c*c + s*s = 1 up to 1e-12) and agreement of the float instance
+    of the GENERATED rotation with numpy's np.dot (BLAS; not bit for bit) up to 1e-12 * (1 + |x| + |y|) *)
+Definition rel12 : float := 0x1.19799812dea11p-40%float.    (* 1e-12 *)
+Definition al_contract_b (al : option (float * float)) : bool :=
+  match al with
+  | None => true
+  | Some (c, s) => PrimFloat.leb (fabs (c * c + s * s - 1)) rel12
+  end%float.
+Fixpoint pos_close (pre model obs : list (Z * fvec2)) : bool :=
+  match pre, model, obs with
+  | [], [], [] => true
+  | (_, p) :: pre', (k, m) :: model', (l, q) :: obs' =>
+      let tol := (rel12 * (1 + fabs (fst p) + fabs (snd p)))%float in
+      Z.eqb k l && PrimFloat.leb (fabs (fst m - fst q)) tol && PrimFloat.leb (fabs (snd m - snd q)) tol
+      && pos_close pre' model' obs'
+  | _, _, _ => false
+  end.
+
 Definition corr_ok (c : case) : bool :=
   match c with
-  | CLayout nodes edges db exc pre lens post =>
+  | CLayout nodes edges db exc pre al mid lens post =>
       Nat.eqb exc 0 &&
-      lens_ok (lens_of numF PrimFloat.sqrt (posf pre) edges) lens &&      (* contract of the norm transcript *)
-      pos_eqb (rescale_with numF db lens pre) post
+      tail_eqb gen_vespr_tail [TAlign; TRescale] &&                       (* the step order this comparison follows *)
+      al_contract_b al &&
+      match al with
+      | None => pos_eqb pre mid
+      | Some _ => pos_close pre (align_step numF al pre) mid
+      end &&
+      lens_ok (lens_of numF PrimFloat.sqrt (posf mid) edges) lens &&      (* contract of the norm transcript *)
+      pos_eqb (rescale_with numF db lens mid) post
   | CRot edges anchor target comps exc pre post =>
       match rotate_subgraph (fun _ p => p) edges anchor target comps (posf pre) with
       | Ok (comp, _) => Nat.eqb exc 0 && comp_contract edges anchor target comp &&
@@ -95,7 +123,7 @@ Definition has_key (k : Z) (l : list (Z * fvec2)) : bool := existsb (fun kp => Z
 
 Definition prop_fail (c : case) : nat :=
   match c with
-  | CLayout nodes edges db exc pre lens post =>
+  | CLayout nodes edges db exc pre _ _ lens post =>
       if Nat.eqb exc 3 then 2%nat
       else if negb (Nat.eqb exc 0) then 1%nat
       else if negb (Nat.eqb (length post) (length nodes) && forallb (fun k => has_key k post) nodes) then 2%nat
